@@ -3,7 +3,10 @@
 //
 //   tplrender <w> <doc> <units>  -> "R <units of the stream>"
 //   tpltags   <w> <units>        -> "T <dump of the tag tree>"  (format = showTags in lean/Qentem/Driver/Tmpl.lean)
-//   tplcache  <w> <doc> <units>  -> "C same" | "C diff <fresh>|<first cached>|<second cached>"
+//   tplcache  <w> <doc> <units>  -> "C same" | "C diff <fresh>|<first cached>|<second cached>" |
+//                                   "C value-changed …" | "C tags-changed" (Stringify of the value and of every pointer
+//                                   target, and the tag dump, before/after every render)
+//   tplthreads <w> <doc> <units> -> "H same" | "H diff …" | "H value-changed": 6 threads x 3 renders sharing tags + value
 //        fresh render; render that fills a tags cache; render from that cache into a stream
 //        pre-filled with "<&" (the prefix must survive and the rest must be the same text)
 //
@@ -12,8 +15,12 @@
 //           u | z | t | f | n<dec> | i<signed dec> | s<u.u.u> (s alone = empty) |
 //           a<count> doc... | o<count> (k<u.u.u> doc)...
 //           `u` leaves an array slot / an object member undefined.
+//           p <doc> : a pointer value (SetPointerToValue) to a separately owned value built from <doc>
 #include <new>
+#include "ledger.hpp"
 #include "common.hpp"
+#include <memory>
+#include <thread>
 #include "Value.hpp"
 #include "Template.hpp"
 #include "StringStream.hpp"
@@ -60,6 +67,10 @@ struct H {
         for (uint64_t x : u) out.push_back(static_cast<Char_T>(x));
     }
 
+    // targets of pointer values (`p` token): owned here, outlive the value that points to them
+    using Keep = std::vector<std::unique_ptr<ValueT>>;
+    static inline Keep *g_keep = nullptr;
+
     // one doc starting at tk[i]; i is advanced past it
     static bool buildDoc(const std::vector<std::string> &tk, size_t &i, ValueT &out, unsigned depth) {
         if (i >= tk.size() || depth > 4096) return false;
@@ -67,6 +78,15 @@ struct H {
         if (t.empty()) return false;
         const char *rest = t.c_str() + 1;
         switch (t[0]) {
+            case 'p': {
+                // p <doc>: a pointer value (Value::SetPointerToValue) to a separately owned value
+                if (*rest || g_keep == nullptr) return false;
+                g_keep->emplace_back(new ValueT{});
+                ValueT *target = g_keep->back().get();
+                if (!buildDoc(tk, i, *target, depth + 1)) return false;
+                out.SetPointerToValue(target);
+                return true;
+            }
             case 'u': {
                 if (*rest) return false;
                 out.Reset();
@@ -145,10 +165,26 @@ struct H {
         }
     }
 
-    static bool buildRoot(const std::string &doc, ValueT &out) {
+    static bool buildRoot(const std::string &doc, ValueT &out, Keep &keep) {
         const std::vector<std::string> tk = vh::split(doc, ',');
         size_t                         i  = 0;
-        return buildDoc(tk, i, out, 0) && i == tk.size();
+        g_keep                            = &keep;
+        const bool ok                     = buildDoc(tk, i, out, 0) && i == tk.size();
+        g_keep                            = nullptr;
+        return ok;
+    }
+
+    // what a render must leave untouched: the value (and the targets of its pointer members)
+    static std::string dumpValue(const ValueT &value, const Keep &keep) {
+        Stream ss;
+        value.Stringify(ss);
+        std::string o = show(ss);
+        for (const auto &k : keep) {
+            Stream s2;
+            k->Stringify(s2);
+            o += "/" + show(s2);
+        }
+        return o;
     }
 
     static std::string show(const Stream &ss, size_t skip = 0) {
@@ -156,8 +192,9 @@ struct H {
     }
 
     static std::string render(const std::string &doc, const std::vector<uint64_t> &u) {
+        Keep   keep;
         ValueT value;
-        if (!buildRoot(doc, value)) return "bad-op";
+        if (!buildRoot(doc, value, keep)) return "bad-op";
         vh::ExactBuf<Char_T> in(u);
         Stream               ss;
         Template::Render(static_cast<const Char_T *>(in.p), SizeT(in.n), value, ss);
@@ -165,23 +202,34 @@ struct H {
     }
 
     static std::string cache(const std::string &doc, const std::vector<uint64_t> &u) {
+        Keep   keep;
         ValueT value;
-        if (!buildRoot(doc, value)) return "bad-op";
+        if (!buildRoot(doc, value, keep)) return "bad-op";
         vh::ExactBuf<Char_T> in(u);
         const Char_T        *p = in.p;
-        Stream               fresh;
+        const std::string v0 = dumpValue(value, keep);
+        Stream            fresh;
         Template::Render(p, SizeT(in.n), value, fresh);
+        const std::string v1 = dumpValue(value, keep);
         Tags_  tags;
         Stream first;
         Template::Render(p, SizeT(in.n), value, first, tags);
+        const std::string v2 = dumpValue(value, keep);
+        std::string       t0 = "T ";
+        dumpTags(t0, tags);
         Stream second;
         second += Char_T('<');
         second += Char_T('&');
         Template::Render(p, SizeT(in.n), value, second, tags);
+        const std::string v3 = dumpValue(value, keep);
+        std::string       t1 = "T ";
+        dumpTags(t1, tags);
         const bool prefix_ok = (second.Length() >= 2 && second.First()[0] == Char_T('<') && second.First()[1] == Char_T('&'));
         const std::string a = show(fresh);
         const std::string b = show(first);
         const std::string c = prefix_ok ? show(second, 2) : ("prefix-disturbed:" + show(second));
+        if (v0 != v1 || v0 != v2 || v0 != v3) return "C value-changed " + v0 + "|" + v3;
+        if (t0 != t1) return "C tags-changed";
         if (a == b && a == c) return "C same";
         return "C diff " + a + "|" + b + "|" + c;
     }
@@ -281,6 +329,45 @@ struct H {
         }
     }
 
+    // N threads share the tag tree and the value, each renders into its own stream
+    static std::string threads(const std::string &doc, const std::vector<uint64_t> &u) {
+        Keep   keep;
+        ValueT value;
+        if (!buildRoot(doc, value, keep)) return "bad-op";
+        vh::ExactBuf<Char_T> in(u);
+        const Char_T        *p = in.p;
+        Tags_                tg;
+        Core::Parse(p, SizeT(in.n), tg);
+        const Tags_  &ctags  = tg;
+        const ValueT &cvalue = value;
+        Stream        seq;
+        {
+            Core temp{p, SizeT(in.n)};
+            temp.Render(ctags, cvalue, seq);
+        }
+        const std::string expected = show(seq);
+        const std::string v0       = dumpValue(value, keep);
+        constexpr int     N        = 6;
+        std::string       outs[N];
+        std::thread       th[N];
+        for (int k = 0; k < N; ++k) {
+            th[k] = std::thread([&, k]() {
+                for (int r = 0; r < 3; ++r) {
+                    Stream ss;
+                    Core   temp{p, SizeT(in.n)};
+                    temp.Render(ctags, cvalue, ss);
+                    outs[k] = show(ss);
+                    if (outs[k] != expected) return;
+                }
+            });
+        }
+        for (int k = 0; k < N; ++k) th[k].join();
+        for (int k = 0; k < N; ++k)
+            if (outs[k] != expected) return "H diff " + expected + "|" + outs[k];
+        if (dumpValue(value, keep) != v0) return "H value-changed";
+        return "H same";
+    }
+
     static std::string tags(const std::vector<uint64_t> &u) {
         vh::ExactBuf<Char_T> in(u);
         Tags_                tg;
@@ -294,8 +381,9 @@ struct H {
 template <typename Char_T>
 static std::string run(const std::vector<std::string> &t) {
     std::vector<uint64_t> u;
-    if (t.size() == 4 && (t[0] == "tplrender" || t[0] == "tplcache")) {
+    if (t.size() == 4 && (t[0] == "tplrender" || t[0] == "tplcache" || t[0] == "tplthreads")) {
         if (!vh::parse_nats(t[3], u)) return "bad-op";
+        if (t[0] == "tplthreads") return H<Char_T>::threads(t[2], u);
         return (t[0] == "tplrender") ? H<Char_T>::render(t[2], u) : H<Char_T>::cache(t[2], u);
     }
     if (t.size() == 3 && t[0] == "tpltags") {
